@@ -137,11 +137,11 @@ def Opt.deepCopy (o : Opt) : Opt :=
   { name := o.name, comments := o.comments, args := o.args, argsId := 0,
     assignments := o.assignments.map Assignment.deepCopy, dflt := none }
 
-/-- `Builder.DeepCopy`: `For` is copied by value (shares its slices and kind pointers),
-    **`Factories` is not copied**, every option goes through `Option.DeepCopy` -/
+/-- `Builder.DeepCopy` (after /repo ea8a40d: `For` and `Factories` are copied too): every member is
+    copied; every option goes through `Option.DeepCopy`, which still drops `Default` -/
 def Builder.deepCopy (b : Builder) : Builder :=
   { for_ := b.for_, pkg := b.pkg, name := b.name, properties := b.properties,
     constructor := { args := b.constructor.args, assignments := b.constructor.assignments.map Assignment.deepCopy },
-    options := b.options.map Opt.deepCopy, factories := [] }
+    options := b.options.map Opt.deepCopy, factories := b.factories }
 
 end Cog.Builder
